@@ -357,10 +357,7 @@ def _self_field(n, selfv):
 
 def r5_clone_provenance(facts):
     c = Ctx("R5", facts, "Clone shares or copies every field the right way")
-    b = None
-    for x in facts.fns():
-        if x.get("impl_self") == ARRAY and x.get("impl_trait_def") == "core::clone::Clone" and x.get("name") == "clone":
-            b = x
+    b = F.clone_body(facts)
     if not b:
         c.floor("<Array as Clone>::clone", 0, 1)
         return c
@@ -425,6 +422,13 @@ def r5_clone_provenance(facts):
             ok = (e0.get("k") == "Call" and callee(e0) == "core::cell::Cell::<T>::new" and len(e0["args"]) == 1)
             if ok:
                 inner = strip(e0["args"][0])
+                # `let is_tracked = self.is_tracked.get(); .. Cell::new(is_tracked)`
+                lets_ = {st["pat"]["v"]: st["init"] for x_ in walk(root) if x_.get("k") == "Block" for st in x_["stmts"]
+                         if st["s"] == "let" and st["pat"].get("k") == "Binding" and st.get("init") is not None}
+                hops_ = 0
+                while isinstance(inner, dict) and inner.get("k") == "VarRef" and inner["v"] in lets_ and hops_ < 3:
+                    inner = strip(lets_[inner["v"]])
+                    hops_ += 1
                 ok = inner.get("k") == "Call" and callee(inner) == "core::cell::Cell::<T>::get" and _self_field(inner["args"][0], selfv) == name
             elif e0.get("k") == "Call" and callee(e0) == "core::clone::Clone::clone" and (resolved(e0) or "").startswith("<core::cell::Cell<T> as") \
                     and _self_field(e0["args"][0], selfv) == name:
@@ -850,10 +854,7 @@ def r16_ctor_funnel(facts):
                 if a["adt"] == ARRAY:
                     mir_bodies.add(b["def"])
     fb = funnel_body(facts)
-    clone_def = None
-    for x in facts.fns():
-        if x.get("impl_self") == ARRAY and x.get("impl_trait_def") == "core::clone::Clone" and x.get("name") == "clone":
-            clone_def = x["def"]
+    clone_def = (F.clone_body(facts) or {}).get("def")
     c.floor("funnel constructor From<(Vec<usize>, Rc<Vec<Float>>)>", 1 if fb else 0, 1)
     c.floor("bodies containing an Array literal", len(lit_bodies), 2)
     allowed = {fb["def"] if fb else None, clone_def}
